@@ -4,10 +4,9 @@ import CogentModel.Model.DataStoreSqlite
 
 Model: `Model/DataStore.lean` (DataStoreDirectory over an abstract file system, string handling
 mirrored character by character), `Model/DataStoreSqlite.lean`.  Spec: `Spec/DataStoreDict.lean`.
-`cfg : Cfg` selects the code as it is (`Cfg.asIs`) or with the two proposed repairs
-(`exactDrop`: `drop_not_completed` compares names for equality; `roDropChecked`: it refuses a
-read-only store).  The theorems below hold for every `cfg`; the hypotheses `hyg` / `safeHist`
-shrink accordingly.
+The model follows the code after the repairs 5d49b05d8 (exact-name match in
+`drop_not_completed`), fce82c149 (read-only check there) and 0dec94369 (a rewritten
+not-completed record is listed once).
 -/
 namespace CogentModel.C13
 open CogentModel.KV CogentModel.DataStore CogentModel.DataStoreDict
@@ -15,7 +14,7 @@ open CogentModel.KV CogentModel.DataStore CogentModel.DataStoreDict
 variable {D : Type}
 
 /-- **Directory store refines the dictionary (partial).**  For EVERY finite history `ops`, any
-store suffix, any opening mode, any checksum function `H`, either variant of the code, and any
+store suffix, any opening mode, any checksum function `H`, and any
 identifier set `ids` that is name-hygienic (`hyg`, a decidable condition on the names only): if
 every operation is `safe` in the dictionary state it is applied to, then what the store shows
 after the history — having read its member lists (`populate`) — is what the dictionary holds:
@@ -23,10 +22,10 @@ completed / not-completed ids are exactly the dictionary keys, each listed once;
 member is the dictionary value; every not-completed member's md5 is `H` of its content; every
 completed member's md5 is `H` of its content or missing.  (A freshly re-opened store is the case
 `ops ++ [reopen m]`, see `reopened_store_refines_dict_partial`.) -/
-theorem store_refines_dict_partial (cfg : Cfg) (H : D → D) (sfx : Str) (ids : List Str) (mode : Mode)
-    (ops : List (Op D)) (hy : hyg cfg sfx ids = true)
-    (hs : safeHist cfg sfx ids (Dict.empty mode) ops = true) :
-    let s := populate (run cfg H (Dir.create mode sfx) ops)
+theorem store_refines_dict_partial (H : D → D) (sfx : Str) (ids : List Str) (mode : Mode)
+    (ops : List (Op D)) (hy : hyg sfx ids = true)
+    (hs : safeHist sfx ids (Dict.empty mode) ops = true) :
+    let s := populate (run H (Dir.create mode sfx) ops)
     let d := specRun .directory sfx (Dict.empty mode) ops
     s.cCache.Nodup ∧ (∀ n, n ∈ s.cCache ↔ n ∈ keys d.completed) ∧
     s.ncCache.Nodup ∧ (∀ n, n ∈ s.ncCache ↔ n ∈ keys d.notCompleted) ∧
@@ -38,27 +37,26 @@ theorem store_refines_dict_partial (cfg : Cfg) (H : D → D) (sfx : Str) (ids : 
 
 /- FULL STATEMENT (not proved): `store_refines_dict` — the same conclusion, with the last clause
    strengthened to `get s.md5 … = some (H v)`, for every history and every identifier set, i.e.
-   without `hyg` and `safeHist`.  It is FALSE for the code as it is; each hypothesis is forced by a
-   concrete behaviour of `DataStoreDirectory`, exhibited below by a `_counter` theorem and replayed
-   on the real store by the harness:
-   * `hyg` pairwise clause `dropInj` (only for `exactDrop = false`): `endswith` matching deletes
-     other identifiers' not-completed records (`store_refines_dict_counter`);
-   * the weak md5 clause: the completed and the not-completed record of one identifier share the
-     md5 side file, and `write` deletes it when it retires the not-completed record
-     (`md5_lost_on_retire_counter`);
+   without `hyg` and `safeHist`.  It is FALSE for the code as it is; each remaining hypothesis is
+   forced by a concrete behaviour of `DataStoreDirectory`, exhibited below by a `_counter` theorem
+   and replayed on the real store by the harness:
+   * the weak md5 clause and `safe (.writeNc)` "OVERWRITE mode: no completed record": the completed
+     and the not-completed record of one identifier share the md5 side file, and `write` deletes it
+     when it retires the not-completed record (`md5_lost_on_retire_counter`);
    * `safe (.write)`: OVERWRITE mode silently keeps the old record (`rewrite_ignored_counter`);
-   * `safe (.writeNc)`: a second not-completed write lists the member twice, append mode
-     overwrites it (`nc_duplicate_counter`);
-   * `safe (.drop)` (only for `roDropChecked = false`): a read-only store drops records
-     (`readonly_drop_counter`);
+   * `safe (.writeNc)` "APPEND mode: no second not-completed record": append mode overwrites an
+     existing not-completed record (`append_overwrites_not_completed_counter`);
    * `hyg` per-identifier clauses: `str.replace(suffix, …)` / `suffix in item` act on the whole
      identifier, so identifiers that merely contain the suffix are stored under other names
-     (`suffix_substring_counter`).
-   With both repairs (`Cfg.repaired`) `dropInj` is `ncN j = ncN i → ncN j = ncN i` and the
-   read-only clause disappears; the other hypotheses remain. -/
+     (`suffix_substring_counter`); the pairwise clauses only ask that distinct records have
+     distinct md5 side-file names.
+   No longer needed since the repairs (and removed from `hyg` / `safe`): "no not-completed name is
+   a suffix-match of another identifier" (5d49b05d8, `drop_matches_exact_name`), "no drop on a
+   read-only store" (fce82c149, `readonly_drop_refused`), "no second not-completed write of one
+   identifier" in OVERWRITE mode (0dec94369, `not_completed_rewrite_listed_once`). -/
 
-/-- hypotheses of `store_refines_dict_partial` are satisfiable by a non-trivial history
-    (names that are suffixes of one another need the exact-match repair) -/
+/-- hypotheses of `store_refines_dict_partial` are satisfiable by non-trivial histories, including
+    names that are suffixes of one another and a rewritten not-completed record -/
 def fasta : Str := ['f','a','s','t','a']
 def idA : Str := ['a']
 def idBA : Str := ['b','a']
@@ -71,47 +69,54 @@ def aFasta : Str := ['a','.','f','a','s','t','a']
 /-- `write_nc('ba'); write_nc('a'); write('a.fasta')` -/
 def witness : List (Op Nat) := [.writeNc idBA 1, .writeNc idA 2, .write idAfasta 3]
 
-example : hyg Cfg.repaired fasta [idA, idBA, idAfasta] = true ∧
-    safeHist Cfg.repaired fasta [idA, idBA, idAfasta] (Dict.empty .w) witness = true := by decide
-example : hyg Cfg.asIs fasta [idA, idB, idAfasta] = true ∧
-    safeHist Cfg.asIs fasta [idA, idB, idAfasta] (Dict.empty .a)
-      [.writeNc idB 1, .writeNc idA 2, .write idAfasta 3, .reopen .w, .drop idB, .drop []] = true := by decide
+example : hyg fasta [idA, idBA, idAfasta] = true ∧
+    safeHist fasta [idA, idBA, idAfasta] (Dict.empty .w) witness = true := by decide
+example : hyg fasta [idA, idBA, idAfasta] = true ∧
+    safeHist fasta [idA, idBA, idAfasta] (Dict.empty .a)
+      [.writeNc idBA 1, .writeNc idA 2, .write idAfasta 3, .reopen .w, .writeNc idBA 4, .writeNc idBA 5, .drop idBA,
+       .reopen .r, .drop []] = true := by decide
 
-/-- the witness history: the code as it is loses `ba`'s record, the dictionary (and the repaired
-    variant) keep it -/
-theorem store_refines_dict_counter :
-    (populate (run Cfg.asIs id (Dir.create .w fasta) witness)).ncCache = [] ∧
-    keys (specRun .directory fasta (Dict.empty .w) witness).notCompleted = [baJson] ∧
-    (populate (run Cfg.repaired id (Dir.create .w fasta) witness)).ncCache = [baJson] := by decide
+/-- the witness history (`write_nc('ba'); write_nc('a'); write('a.fasta')`): since 5d49b05d8 the store
+    keeps `ba`'s record, as the dictionary does -/
+theorem drop_matches_exact_name :
+    (populate (run id (Dir.create .w fasta) witness)).ncCache = [baJson] ∧
+    keys (specRun .directory fasta (Dict.empty .w) witness).notCompleted = [baJson] := by decide
 
 /-- `write_nc('a'); write('a')`: the completed record ends up without md5 -/
 theorem md5_lost_on_retire_counter :
-    let s := populate (run Cfg.asIs (· + 100) (Dir.create .a fasta) [.writeNc idA 1, .write idA 2])
+    let s := populate (run (· + 100) (Dir.create .a fasta) [.writeNc idA 1, .write idA 2])
     s.cCache = [aFasta] ∧ get s.root aFasta = some 2 ∧ get s.md5 (md5Lookup fasta aFasta) = none := by decide
 
 /-- `write('a', 1); write('a', 2)` in OVERWRITE mode keeps `1` -/
 theorem rewrite_ignored_counter :
-    get (run Cfg.asIs id (Dir.create .w fasta) [.write idA 1, .write idA 2]).root aFasta = some 1 ∧
+    get (run id (Dir.create .w fasta) [.write idA 1, .write idA 2]).root aFasta = some 1 ∧
     get (specRun .directory fasta (Dict.empty .w) [.write idA 1, .write idA 2]).completed aFasta = some 2 := by
   decide
 
-/-- `write_nc('a', 1); write_nc('a', 2)` in APPEND mode overwrites and lists the member twice -/
-theorem nc_duplicate_counter :
-    let s := run Cfg.asIs id (Dir.create .a fasta) [.writeNc idA 1, .writeNc idA 2]
-    s.ncCache = [aJson, aJson] ∧ get s.nc aJson = some 2 ∧
+/-- `write_nc('a', 1); write_nc('a', 2)` in APPEND mode overwrites the record (listed once since 0dec94369) -/
+theorem append_overwrites_not_completed_counter :
+    let s := run id (Dir.create .a fasta) [.writeNc idA 1, .writeNc idA 2]
+    s.ncCache = [aJson] ∧ get s.nc aJson = some 2 ∧
     get (specRun .directory fasta (Dict.empty .a) [.writeNc idA 1, .writeNc idA 2]).notCompleted aJson = some 1 := by
   decide
 
-/-- a read-only store drops records (code as it is); the repaired variant refuses -/
-theorem readonly_drop_counter :
-    (run Cfg.asIs id (Dir.create .w fasta) [.writeNc idA 1, .reopen .r, .drop []]).nc = [] ∧
-    keys (run Cfg.repaired id (Dir.create .w fasta) [.writeNc idA 1, .reopen .r, .drop []]).nc = [aJson] := by
+/-- the same two writes in OVERWRITE mode: the record is replaced and listed once, as in the dictionary -/
+theorem not_completed_rewrite_listed_once :
+    let s := run id (Dir.create .w fasta) [.writeNc idA 1, .writeNc idA 2]
+    s.ncCache = [aJson] ∧ get s.nc aJson = some 2 ∧
+    get (specRun .directory fasta (Dict.empty .w) [.writeNc idA 1, .writeNc idA 2]).notCompleted aJson = some 2 := by
+  decide
+
+/-- since fce82c149 a read-only store refuses `drop_not_completed` -/
+theorem readonly_drop_refused :
+    keys (run id (Dir.create .w fasta) [.writeNc idA (1 : Nat), .reopen .r, .drop []]).nc = [aJson] ∧
+    (step id (run id (Dir.create .w fasta) [.writeNc idA (1 : Nat), .reopen .r]) (.drop [])).2 = .err .ioError := by
   decide
 
 /-- an identifier containing the suffix: `write_nc('sofasta.fasta')` is stored as `sojson.json`
     with its md5 under `sotxt.txt` -/
 theorem suffix_substring_counter :
-    let s := run Cfg.asIs id (Dir.create .w fasta) [.writeNc ['s','o','f','a','s','t','a','.','f','a','s','t','a'] 1]
+    let s := run id (Dir.create .w fasta) [.writeNc ['s','o','f','a','s','t','a','.','f','a','s','t','a'] 1]
     keys s.nc = [['s','o','j','s','o','n','.','j','s','o','n']] ∧
     keys s.md5 = [['s','o','t','x','t','.','t','x','t']] ∧
     hygId fasta ['s','o','f','a','s','t','a','.','f','a','s','t','a'] = false := by decide
@@ -120,21 +125,21 @@ theorem suffix_substring_counter :
 
 /-- closing and re-opening in any mode shows the same records (same statement as
     `store_refines_dict_partial` for the history followed by a re-open). -/
-theorem reopened_store_refines_dict_partial (cfg : Cfg) (H : D → D) (sfx : Str) (ids : List Str) (mode m : Mode)
-    (ops : List (Op D)) (hy : hyg cfg sfx ids = true)
-    (hs : safeHist cfg sfx ids (Dict.empty mode) ops = true) :
-    let s := populate (run cfg H (Dir.create mode sfx) (ops ++ [.reopen m]))
+theorem reopened_store_refines_dict_partial (H : D → D) (sfx : Str) (ids : List Str) (mode m : Mode)
+    (ops : List (Op D)) (hy : hyg sfx ids = true)
+    (hs : safeHist sfx ids (Dict.empty mode) ops = true) :
+    let s := populate (run H (Dir.create mode sfx) (ops ++ [.reopen m]))
     let d := specRun .directory sfx (Dict.empty mode) ops
     s.cCache.Nodup ∧ (∀ n, n ∈ s.cCache ↔ n ∈ keys d.completed) ∧
     s.ncCache.Nodup ∧ (∀ n, n ∈ s.ncCache ↔ n ∈ keys d.notCompleted) ∧
     (∀ n, get s.root n = get d.completed n) ∧ (∀ n, get s.nc n = get d.notCompleted n) := by
-  have h := store_refines_dict_partial cfg H sfx ids mode (ops ++ [.reopen m]) hy
+  have h := store_refines_dict_partial H sfx ids mode (ops ++ [.reopen m]) hy
     (by rw [safeHist_append_reopen]; exact hs)
   obtain ⟨e1, e2⟩ := specRun_append_reopen sfx m ops (Dict.empty mode)
   simp only [e1, e2] at h
   exact ⟨h.1, h.2.1, h.2.2.1, h.2.2.2.1, h.2.2.2.2.1, h.2.2.2.2.2.1⟩
 
-example : safeHist Cfg.repaired fasta [idA, idBA, idAfasta] (Dict.empty .w) (witness ++ [.reopen .r]) = true := by decide
+example : safeHist fasta [idA, idBA, idAfasta] (Dict.empty .w) (witness ++ [.reopen .r]) = true := by decide
 
 /-! ## corollaries -/
 
@@ -176,17 +181,18 @@ theorem spec_op_local (sfx : Str) (d : Dict D) (op : Op D) (i : Str) (hi : opId 
 related to a dictionary state by the simulation (so: after any safe history), a safe operation
 naming `i` leaves the content of every file other than `i`'s completed and not-completed record
 unchanged — in the store itself, not only in the dictionary. -/
-theorem op_on_id_is_local_partial (cfg : Cfg) (H : D → D) (sfx : Str) (ids : List Str) (s : Dir D) (d : Dict D)
-    (hy : hyg cfg sfx ids = true) (h : Sim H sfx ids s d) (op : Op D) (hs : safe cfg sfx ids d op = true)
+theorem op_on_id_is_local_partial (H : D → D) (sfx : Str) (ids : List Str) (s : Dir D) (d : Dict D)
+    (hy : hyg sfx ids = true) (h : Sim H sfx ids s d) (op : Op D) (hs : safe sfx ids d op = true)
     (i : Str) (hi : opId op = some i) (n : Str) (hc : n ≠ cN sfx i) (hn : n ≠ ncN i) :
-    get (step cfg H s op).1.root n = get s.root n ∧ get (step cfg H s op).1.nc n = get s.nc n := by
+    get (step H s op).1.root n = get s.root n ∧ get (step H s op).1.nc n = get s.nc n := by
   have h' := step_sim hy h op hs
   obtain ⟨e1, e2⟩ := spec_op_local sfx d op i hi n hc hn
   rw [h'.root, h'.nc, h.root, h.nc]
   exact ⟨e1, e2⟩
 
 /- FULL STATEMENT (not proved): `op_on_id_is_local` without `hyg`/`safe`/`Sim` — false for the code
-   as it is: `store_refines_dict_counter` (the write of `a.fasta` removes `ba`'s record). -/
+   as it is: `suffix_substring_counter` (identifiers containing the suffix collide: `fasta_x` and
+   `json_x` both become `json_x.json`), `md5_lost_on_retire_counter` (md5 side file shared). -/
 
 example : opId (.write idAfasta 3 : Op Nat) = some idAfasta ∧ baJson ≠ cN fasta idAfasta ∧ baJson ≠ ncN idAfasta := by
   decide
@@ -252,19 +258,19 @@ theorem spec_append_never_overwrites (sfx : Str) (d : Dict D) (op : Op D) (hm : 
 /-- **Append mode never overwrites (partial).**  In append mode a safe operation leaves every
 stored completed file's content unchanged and every not-completed file unchanged or removed —
 in the store itself. -/
-theorem append_never_overwrites_partial (cfg : Cfg) (H : D → D) (sfx : Str) (ids : List Str) (s : Dir D) (d : Dict D)
-    (hy : hyg cfg sfx ids = true) (h : Sim H sfx ids s d) (op : Op D) (hs : safe cfg sfx ids d op = true)
+theorem append_never_overwrites_partial (H : D → D) (sfx : Str) (ids : List Str) (s : Dir D) (d : Dict D)
+    (hy : hyg sfx ids = true) (h : Sim H sfx ids s d) (op : Op D) (hs : safe sfx ids d op = true)
     (hm : s.mode = .a) (hop : ∀ m, op ≠ .reopen m) (n : Str) (v : D) :
-    (get s.root n = some v → get (step cfg H s op).1.root n = some v) ∧
-    (get s.nc n = some v → get (step cfg H s op).1.nc n = some v ∨ get (step cfg H s op).1.nc n = none) := by
+    (get s.root n = some v → get (step H s op).1.root n = some v) ∧
+    (get s.nc n = some v → get (step H s op).1.nc n = some v ∨ get (step H s op).1.nc n = none) := by
   have h' := step_sim hy h op hs
   rw [h'.root, h'.nc, h.root, h.nc]
   exact spec_append_never_overwrites sfx d op (h.hmode ▸ hm) hop n v
 
 /- FULL STATEMENT (not proved): `append_never_overwrites` without `hyg`/`safe`/`Sim` — false for the
-   code as it is: `nc_duplicate_counter` (the second `write_not_completed` in append mode overwrites). -/
+   code as it is: `append_overwrites_not_completed_counter`. -/
 
-example : (Dict.empty .a : Dict Nat).mode = .a ∧ safe Cfg.asIs fasta [idA] (Dict.empty .a) (.write idA (1 : Nat)) = true := by
+example : (Dict.empty .a : Dict Nat).mode = .a ∧ safe fasta [idA] (Dict.empty .a) (.write idA (1 : Nat)) = true := by
   decide
 
 /-! ## read-only mode (no hygiene needed: holds for ALL identifiers) -/
@@ -272,37 +278,21 @@ example : (Dict.empty .a : Dict Nat).mode = .a ∧ safe Cfg.asIs fasta [idA] (Di
 /-- the files of the store: completed, not-completed, logs, md5 -/
 def files (s : Dir D) : KV D × KV D × KV D × KV D := (s.root, s.nc, s.logs, s.md5)
 
-/-- **Read-only mode never mutates.**  With the read-only check in `drop_not_completed`
-(`roDropChecked`), NO operation on a read-only store changes any file, for every identifier
-(no hygiene or history hypothesis). -/
-theorem readonly_never_mutates (cfg : Cfg) (H : D → D) (s : Dir D) (op : Op D) (hm : s.mode = .r)
-    (hc : cfg.roDropChecked = true) : files (step cfg H s op).1 = files s := by
+/-- **Read-only mode never mutates.**  NO operation on a read-only store changes any file, for
+every identifier and every state (no hygiene or history hypothesis) — full strength since
+fce82c149. -/
+theorem readonly_never_mutates (H : D → D) (s : Dir D) (op : Op D) (hm : s.mode = .r) :
+    files (step H s op).1 = files s := by
   cases op with
   | write i data => simp [step, write, writeCore, hm, files]
   | writeNc i data => simp [step, writeNc, writeCore, hm, files]
   | writeLog i data => simp [step, writeLog, writeCore, hm, files]
-  | drop i => simp [step, dropNc, hm, hc, files]
+  | drop i => simp [step, dropNc, hm, files]
   | reopen m => simp [step, reopen, files]
   | observe => simp [step, populate, files]
   | unlock => simp [step, files]
 
-/-- **Read-only mode never mutates (partial): the code as it is.**  Every operation other than
-`drop_not_completed` leaves all files of a read-only store unchanged. -/
-theorem readonly_never_mutates_partial (cfg : Cfg) (H : D → D) (s : Dir D) (op : Op D) (hm : s.mode = .r)
-    (hop : ∀ i, op ≠ .drop i) : files (step cfg H s op).1 = files s := by
-  cases op with
-  | write i data => simp [step, write, writeCore, hm, files]
-  | writeNc i data => simp [step, writeNc, writeCore, hm, files]
-  | writeLog i data => simp [step, writeLog, writeCore, hm, files]
-  | drop i => exact absurd rfl (hop i)
-  | reopen m => simp [step, reopen, files]
-  | observe => simp [step, populate, files]
-  | unlock => simp [step, files]
-
-/- FULL STATEMENT (not proved): `readonly_never_mutates` for `Cfg.asIs` and every operation — false:
-   `readonly_drop_counter`. -/
-
-example : (reopen (run Cfg.asIs id (Dir.create .w fasta) [.writeNc idA (1 : Nat)]) .r).mode = .r := by decide
+example : (reopen (run id (Dir.create .w fasta) [.writeNc idA (1 : Nat)]) .r).mode = .r := by decide
 
 /-! ## the abstract file system keeps one entry per path -/
 
